@@ -24,6 +24,13 @@ class StreamNode(ConfigList):
         super().__init__(builder.stages, **kwargs)
         self.builder = builder
 
+    def _get_child_kwargs(self, child=None):
+        # the documents held by a stream are independent config trees: that the stream combines them by merging
+        # (rather than replacing, like a list would) must not be inherited by what is inside of them
+        ret = super()._get_child_kwargs(child=child)
+        ret.pop('implicit_delete', None)
+        return ret
+
     @property
     def stages(self):
         return self.builder.stages
